@@ -226,6 +226,19 @@ partial def Val.canon : Val → String
   | .record fs => "(record" ++ String.join (fs.map fun (l, v) => s!" (i{l.getId} {v.canon})") ++ ")"
   | .variant l v _ => s!"(variant i{l.getId} {v.canon})"
 
+/-- canonical printing that ignores the order of vector elements (maps and sets decoded natively) -/
+partial def Val.canonSorted : Val → String
+  | .opt v => s!"(opt {v.canonSorted})"
+  | .vec vs =>
+    let ss := (vs.map Val.canonSorted).toArray.qsort (· < ·) |>.toList
+    "(vec" ++ String.join (ss.map fun s => " " ++ s) ++ ")"
+  | .blob b =>
+    let ss := (b.map fun x => s!"(nat8 {x.toNat})").toArray.qsort (· < ·) |>.toList
+    "(vec" ++ String.join (ss.map fun s => " " ++ s) ++ ")"
+  | .record fs => "(record" ++ String.join (fs.map fun (l, v) => s!" (i{l.getId} {v.canonSorted})") ++ ")"
+  | .variant l v _ => s!"(variant i{l.getId} {v.canonSorted})"
+  | v => v.canon
+
 def valsCanon (vs : List Val) : String := "(" ++ " ".intercalate (vs.map Val.canon) ++ ")"
 
 end Candid
